@@ -457,17 +457,22 @@ func TestC38(t *testing.T) {
 			for _, n := range stats.NotLocal {
 				notl += n
 			}
-			m := map[string]any{
-				"keys_enumerated":         total,
-				"key_language_cases":      total * len(shipped),
-				"languages":               shipped,
-				"keys_by_family":          kb,
-				"constant_sites":          sites,
-				"dynamic_sites":           dyn,
-				"free_text_sites":         free,
-				"not_localized_by_design": notl,
-				"go_files_scanned":        stats.Files,
-				"dynamic_site_list":       stats.DynamicList,
+			m := map[string]any{}
+			// numbers are added up over the shards by the driver: only
+			// shard 0 reports them (every shard scans the same tree)
+			if vkit.ShardIndex() == 0 {
+				m = map[string]any{
+					"keys_enumerated":         total,
+					"key_language_cases":      total * len(shipped),
+					"languages":               shipped,
+					"keys_by_family":          kb,
+					"constant_sites":          sites,
+					"dynamic_sites":           dyn,
+					"free_text_sites":         free,
+					"not_localized_by_design": notl,
+					"go_files_scanned":        stats.Files,
+					"dynamic_site_list":       stats.DynamicList,
+				}
 			}
 			if len(failing) > 0 {
 				var fl []string
